@@ -1064,6 +1064,7 @@ fn expectations(g: &Graph) -> Vec<Expect> {
     // operands computes (the const evaluator's order); a const is judged only where the two agree
     let mut env: Vec<Result<Val, RtErr>> = Vec::new();
     let mut senv: Vec<Result<Val, RtErr>> = Vec::new();
+    let mut tainted: Vec<bool> = Vec::new();
     let mut out = Vec::new();
     let names = |i: usize| g.name(i);
     for (i, c) in g.consts.iter().enumerate() {
@@ -1082,7 +1083,11 @@ fn expectations(g: &Graph) -> Vec<Expect> {
             (Ann::Wrong(_), "fails") => "poisoned",
             (_, s) => s,
         };
-        let status = if matches!(status, "ok" | "wrong-annotation") && g.skip_unknown_slice_bounds && has_unknown_slice_bound(&c.expr, g) { "excluded-known" } else { status };
+        // recorded finding const-slice:unknown-bound-treated-as-absent: the const and everything that references it
+        // (transitively) carries a wrong compile-time value; none of them is judged while the finding is open
+        let is_tainted = g.skip_unknown_slice_bounds && (has_unknown_slice_bound(&c.expr, g) || refs(&c.expr).iter().any(|&r| tainted.get(r).copied().unwrap_or(false)));
+        tainted.push(is_tainted);
+        let status = if is_tainted && status != "out-of-domain" { "excluded-known" } else { status };
         let mut rt_errors = Vec::new();
         walk(&c.expr, &mut |node| {
             if let Err(RtErr::Raised(m)) = eval(node, &senv, true) {
@@ -1091,12 +1096,7 @@ fn expectations(g: &Graph) -> Vec<Expect> {
                 }
             }
         });
-        let (lazy, strict) = if status == "excluded-known" || (status == "fails" && g.skip_unknown_slice_bounds && has_unknown_slice_bound(&c.expr, g)) {
-            (Err(RtErr::Poisoned), Err(RtErr::Poisoned))
-        } else {
-            (lazy, strict)
-        };
-        let status = if status == "fails" && lazy == Err(RtErr::Poisoned) { "excluded-known" } else { status };
+        let (lazy, strict) = if is_tainted { (Err(RtErr::Poisoned), Err(RtErr::Poisoned)) } else { (lazy, strict) };
         out.push(Expect {
             name: g.name(i),
             status: status.to_string(),
@@ -1464,7 +1464,9 @@ fn blockers(g: &Graph, exps: &[Expect]) -> BTreeSet<&'static str> {
             X::Bin(l, op, r) => {
                 let (lt, rt) = (type_of(l, &tyof), type_of(r, &tyof));
                 let unann = |e: &X| matches!(e, X::Ref(i) if g.consts[*i].ann == Ann::None && matches!(g.consts[*i].ty, Ty::Int | Ty::Float));
-                if lt != rt && matches!(lt, Ty::Int | Ty::Float) && matches!(rt, Ty::Int | Ty::Float) && (unann(strip_neg(l)) || unann(strip_neg(r))) {
+                // (any operator: with an unknown operand type the lowered type of the whole operation is wrong too, which
+                // misleads promotion decisions further up, e.g. `1 / K < 1.5` promotes the already-float left side)
+                if matches!(lt, Ty::Int | Ty::Float) && matches!(rt, Ty::Int | Ty::Float) && (unann(strip_neg(l)) || unann(strip_neg(r))) {
                     out.insert(K_UNANN_REF);
                 }
                 match op {
@@ -2062,8 +2064,19 @@ fn run_inproc(r: &Recipe, feat: Features) -> InprocOut {
     let all_ok = g.cycle.is_empty() && exps.iter().all(|e| e.status == "ok" && !e.logic_ambiguous) && fails.is_empty();
     if all_ok {
         if let Err((class, full)) = emit_src(&format!("{src}{MAIN_STUB}")) {
+            // lowering has no type for a reference to an un-annotated const (K_UNANN_REF): it then treats the left operand
+            // of `<` as int and promotes it, which is the `<`-after-cast defect although the checker's types do not predict it
+            let mut has_lt = false;
+            for c in &g.consts {
+                walk(&c.expr, &mut |e| {
+                    if matches!(e, X::Bin(_, B::Lt, _)) {
+                        has_lt = true;
+                    }
+                });
+            }
             match key_of_emit_class(&class) {
                 Some(k) if bl.contains(k) => emit_excluded = Some(k),
+                Some(K_LTC) if has_lt && bl.contains(K_UNANN_REF) => emit_excluded = Some(K_UNANN_REF),
                 _ => {
                     let shapes: BTreeSet<String> = g.consts.iter().map(|c| shape(&c.expr)).collect();
                     emit_fail = Some(Fail {
